@@ -20,6 +20,12 @@ def mk_cond(tag, kind):
     elif kind == "inv":
         def cond(self):
             return TRUTH.get(tag, True)
+    elif kind == "ppost":  # postcondition of a property getter
+        def cond(self, result):
+            return TRUTH.get(tag, True)
+    elif kind == "ppre":
+        def cond(self):
+            return TRUTH.get(tag, True)
     else:
         def cond(self, x):
             return TRUTH.get(tag, True)
@@ -31,16 +37,24 @@ def mk_cond(tag, kind):
 def define(c, classes):
     ns = {}
     for m, spec in c.get("methods", {}).items():
-        def f(self, x, _m=m, _n=c["name"]):
-            return x
+        isprop = bool(spec.get("prop"))
+        if isprop:
+            def f(self, _m=m, _n=c["name"]):
+                return 7
+        else:
+            def f(self, x, _m=m, _n=c["name"]):
+                return x
         f.__name__ = m
         g = f
         for i in range(spec.get("post", 0)):
-            g = icontract.ensure(mk_cond("%s.%s.post%d" % (c["name"], m, i), "post"))(g)
+            g = icontract.ensure(mk_cond("%s.%s.post%d" % (c["name"], m, i), "ppost" if isprop else "post"))(g)
         for i in range(spec.get("snaps", 0)):
-            g = icontract.snapshot(lambda x: x, name="%s_%s_s%d" % (c["name"], m, i))(g)
+            g = icontract.snapshot((lambda self: 0) if isprop else (lambda x: x), name="%s_%s_s%d" % (c["name"], m, i))(g)
         for i in range(spec.get("pre", 0)):
-            g = icontract.require(mk_cond("%s.%s.pre%d" % (c["name"], m, i), "pre"))(g)
+            g = icontract.require(mk_cond("%s.%s.pre%d" % (c["name"], m, i), "ppre" if isprop else "pre"))(g)
+        if isprop:
+            ns[m] = property(g)
+            continue
         if spec.get("wraps"):
             import functools
 
@@ -84,6 +98,8 @@ def observe(cls, methods):
         out[d] = None if l is None else (id(l), tags(l))
     for m in methods:
         f = getattr(cls, m, None)
+        if isinstance(f, property):
+            f = f.fget
         k = innermost_checker(f) if f is not None else None
         if k is None:
             out[m] = None
@@ -186,6 +202,12 @@ def scenarios():
     yield "weaken under unconstrained ancestor", {"classes": [{"name": "A", "methods": {"m": M()}}, {"name": "B", "bases": ["A"], "methods": {"m": M(pre=1)}}]}
     yield "gap in the chain", {"classes": [{"name": "A", "methods": {"m": M(pre=1, post=1)}}, {"name": "B", "bases": ["A"]}, {"name": "C", "bases": ["B"], "methods": {"m": M(pre=1, post=1)}}, {"name": "S", "bases": ["A"], "methods": {"m": M(pre=2)}}]}
     yield "constructor contracts are not inherited", {"classes": [{"name": "A", "methods": {"__init__": M(pre=1)}}, {"name": "B", "bases": ["A"], "methods": {"__init__": M(pre=1)}}]}
+    P = lambda **kw: dict(kw, prop=True)
+    yield "property: two bases with postconditions, overridden", {"classes": [{"name": "A", "methods": {"p": P(post=1)}}, {"name": "B", "methods": {"p": P(post=1, snaps=1)}}, {"name": "C", "bases": ["A", "B"], "methods": {"p": P(post=1)}},
+                                                                              {"name": "D", "bases": ["B", "A"], "methods": {"p": P()}}]}
+    yield "property: two bases with preconditions", {"classes": [{"name": "A", "methods": {"p": P(pre=1)}}, {"name": "B", "methods": {"p": P(pre=2)}}, {"name": "C", "bases": ["A", "B"], "methods": {"p": P(pre=1)}}, {"name": "D", "bases": ["A", "B"]}]}
+    yield "property: two bases one unconstrained", {"classes": [{"name": "A", "methods": {"p": P(pre=1)}}, {"name": "B", "methods": {"p": P()}}, {"name": "C", "bases": ["A", "B"], "methods": {"p": P()}}, {"name": "D", "bases": ["B", "A"], "methods": {"p": P(pre=1)}}]}
+    yield "property: chain with a gap", {"classes": [{"name": "A", "methods": {"p": P(pre=1, post=1)}}, {"name": "B", "bases": ["A"]}, {"name": "C", "bases": ["B"], "methods": {"p": P(pre=1, post=1)}}]}
     yield "invariants along a chain", {"classes": [{"name": "A", "invs": ["CALL", "ALL"]}, {"name": "B", "bases": ["A"], "invs": ["CALL"]}, {"name": "C", "bases": ["B"]}, {"name": "D", "bases": ["A"], "invs": ["SETATTR"]}]}
 
 
